@@ -1,7 +1,7 @@
 #!/bin/bash
 # try_seed.sh <seed dir name under /verif/seeded> <property id> [extra check args]: run a check against a scratch worktree with the seed applied
 S=$1; P=$2; shift 2
-WT=/tmp/scr/wt
+WT=${SEED_WT:-/tmp/scr/wt}
 [ -d $WT ] || git -C /repo worktree add --detach $WT HEAD -q
 git -C $WT checkout -q --detach $(git -C /repo rev-parse HEAD) && git -C $WT checkout -q -- . && git -C $WT apply /verif/seeded/$S/patch.diff || { echo "cannot apply"; exit 2; }
 cd /verif && VERIF_REPO=$WT timeout 1500 ./check $P "$@" 2>&1 | grep -v "^  \|UNDECIDED: .*UNKNOWN" | tail -40
